@@ -16,7 +16,8 @@ CANARY_RLIMIT = 20
 
 EXEC_FUNCS = ['DataNode::update_size_internal', 'Node::new', 'Node::new_data_node', 'Node::size', 'Node::rotate_left', 'Node::rotate_right',
               'Node::balance', 'Node::insert_simple', 'Node::remove_min', 'Node::remove_existing_node', 'Node::unwrap_to_data',
-              'Node::join', 'Node::split', 'Node::join_without_key', 'WBTreeMap::new', 'WBTreeMap::insert', 'WBTreeMap::get']
+              'Node::join', 'Node::split', 'Node::join_without_key', 'WBTreeMap::new', 'WBTreeMap::insert', 'WBTreeMap::get',
+              'WBTreeMap::contains_key', 'WBTreeMap::is_empty', 'WBTreeMap::len', 'WBTreeMap::clear', 'WBTreeMap::remove', 'Node::union', 'WBTreeMap::union', 'Node::difference', 'WBTreeMap::difference']
 
 DROPPED = ['#[cfg(test)] mod tests', 'impl Debug for Node / WBTreeMap', '`use` lines (re-stated in the header)',
            'fn apply_single_mapping / apply_mappings bodies (apply_mappings is declared by an empty contract; only reachable through Node::Mapping, which wf excludes)',
@@ -30,6 +31,7 @@ ALLOW_TRUSTED = [
     'assume_specification std::rc::Rc::<T,A>::make_mut',
     'assume_specification std::rc::Rc::<T,A>::unwrap_or_clone',
     'external_body fn apply_mappings',
+    'external_body fn lemma_rc_cloned<T>',
     'external_body fn clone',
     'external_body struct PrefixTree2',
     'global size_of: global size_of usize == 8;',
@@ -91,7 +93,7 @@ def build(repo, canary=False):
     SPEC('wb_vocab.rs')
     glue(DATANODE.header(), 'impl DataNode header (from source)')
     env = {'I': I, 'emit': emit, 'glue': glue, 'SPEC': SPEC, 'DATANODE': DATANODE, 'NODE': NODE, 'MAP': MAP,
-           'MAPGLUE': lambda: mapglue(A, src), 'src': src, 'A': A}
+           'MAPGLUE': lambda: mapglue(A, src), 'src': src, 'A': A, 'A_FILE': os.path.join(HERE, '..', 'annot', 'wb.py')}
     exec(compile(open(os.path.join(HERE, '..', 'annot', 'wb.py')).read(), 'annot/wb.py', 'exec'), env)
     A.text('} // verus!\nfn main() {}\n', 'footer')
     return A
